@@ -30,7 +30,7 @@ RULE = ("Generated hierarchies, built bottom-up so that parents fit: root = wish
         "addresses: no strobe, no SRAM cycle, zero data; unanswered Wishbone words: never acknowledged. "
         "Non-trivial = >= 2 levels, >= 3 leaves of >= 2 kinds, a multi-chunk register and an unassigned "
         "address. Distinct = canonical JSON.")
-BUDGET = {"quick": (16, 60), "thorough": (16, 1500)}
+BUDGET = {"quick": (16, 60), "thorough": (16, 400)}
 ESSENTIAL = ["root:wb", "root:csr", "leaf:mock", "leaf:real", "leaf:sram", "leaf:evmon", "leaf:gpio",
              "unassigned_address", "unanswered_word", "hole_inside_bridge", "multi_chunk_leaf", "depth>=3",
              "anonymous_window", "named_window", "shuffled_windows", "alignment_padding", "back_to_back_transfers"]
@@ -40,7 +40,7 @@ ASSUMPTIONS = [
     "w_data bits of chunks not written since the last write to a different register are don't-care",
     "'never acknowledged' is checked as: no ack within ratio+4 cycles of a held request (the longest legitimate latency is ratio+1)",
 ]
-MAX_ROOT_ADDRS = {"quick": 1 << 8, "thorough": 1 << 12}
+MAX_ROOT_ADDRS = {"quick": 1 << 8, "thorough": 1 << 11}
 
 
 # ---------------------------------------------------------------------------------- strategies
